@@ -113,6 +113,13 @@ func (m *monitor) hook(v *sim.View, ev *sim.Event) {
 		}
 		m.xrNames[ev.Actor][ev.Key.Name] = true
 	}
+	// O4: a name durably recorded on the claim is reused, never replaced by another one
+	if isClaimActor && ev.Key == ck && ev.Changed && ev.Before != nil && ev.After != nil {
+		was, is := sim.Str(ev.Before, "spec", "resourceRef", "name"), sim.Str(ev.After, "spec", "resourceRef", "name")
+		if was != "" && is != "" && was != is {
+			m.add("O4-recorded-xr-name-replaced", fmt.Sprintf("%s: the claim's stored spec.resourceRef.name was %q and is now %q", ev.Short(), was, is))
+		}
+	}
 	if !ev.Changed {
 		return
 	}
@@ -292,7 +299,8 @@ func staleReads(c *kit.Ctx, ssa bool) {
 			}
 			// now the controller's cache lags the store by `lag` writes for claims (and, in a
 			// second variant, for XRs too)
-			for variant := 0; variant < 3; variant++ {
+			for variant := 0; variant < 4; variant++ {
+				// variant 3: only the XR cache lags (the claim is current): the referenced XR cannot be read yet
 				// variant 2: the cache catches up after serving ONE stale claim read (a second read
 				// within the same reconcile, e.g. a re-Get after a conflict, sees the current claim)
 				served := 0
@@ -303,6 +311,9 @@ func staleReads(c *kit.Ctx, ssa bool) {
 							return lag, true
 						}
 						return 0, false
+					}
+					if variant == 3 {
+						return lag, gk == xrGK
 					}
 					if gk == claimGK || (variant == 1 && gk == xrGK) {
 						return lag, true
@@ -524,11 +535,9 @@ func preemptions(c *kit.Ctx, ssa bool) {
 
 func staticRefs(c *kit.Ctx, ssa bool) {
 	mode := map[bool]string{false: "csa", true: "ssa"}[ssa]
-	for variant := 0; variant < 6; variant++ {
-		caseName := fmt.Sprintf("static/%s/%d", mode, variant)
-		if !c.Want(caseName) {
-			continue
-		}
+	// run executes one variant; a fault (k >= 0) is planted at call k of the first reconcile.
+	// It returns the number of API calls of the first reconcile.
+	run := func(caseName string, variant, k int, out sim.Outcome) int {
 		w := baseWorld(uint64(c.Seed)*43 + uint64(variant))
 		// an XR bound to claim other/owner (variants 0-2) or to nobody (3-5)
 		xr := xrk.XRObject("ex.org/v1", "XThing", "static-xr", "comp", map[string]any{"size": int64(9)})
@@ -546,8 +555,16 @@ func staticRefs(c *kit.Ctx, ssa bool) {
 		w.AddHook(m.hook)
 		ce := xrk.NewClaimEnv(w, xrdName, ssa)
 		from := w.LogLen()
-		for i := 0; i < 2; i++ {
+		calls := 0
+		for i := 0; i < 3; i++ {
+			if i == 0 && k >= 0 {
+				ce.C.Fault(k, out)
+			}
 			_, _, _ = ce.Reconcile("ns1", "c1")
+			if i == 0 {
+				calls = ce.C.Calls()
+				ce.C.ClearFaults()
+			}
 		}
 		if variant%3 == 1 || variant%3 == 2 {
 			// the user deletes the claim: the foreign XR must survive
@@ -567,7 +584,30 @@ func staticRefs(c *kit.Ctx, ssa bool) {
 		}
 		c.Eval(caseName, true)
 		c.Count("static_ref_executions", 1)
-		report(c, m, mode, caseName, func() any { return map[string]any{"mode": mode, "variant": variant, "trace": shortLog(w, from, 60)} })
+		report(c, m, mode, caseName, func() any {
+			return map[string]any{"mode": mode, "variant": variant, "fault_call": k, "outcome": out.String(), "trace": shortLog(w, from, 60)}
+		})
+		return calls
+	}
+	for variant := 0; variant < 6; variant++ {
+		caseName := fmt.Sprintf("static/%s/%d", mode, variant)
+		if !c.Want(caseName) {
+			continue
+		}
+		calls := run(caseName, variant, -1, sim.Conflict)
+		if variant > 1 {
+			continue
+		}
+		// an API fault at every call of the refused reconcile must not open a way around the guard
+		for k := 0; k < calls; k++ {
+			for _, out := range sim.AllFaults {
+				cn := fmt.Sprintf("%s/fault-k%d-%s", caseName, k, out)
+				if c.Want(cn) {
+					run(cn, variant, k, out)
+					c.Count("static_ref_fault_executions", 1)
+				}
+			}
+		}
 	}
 }
 
